@@ -1251,7 +1251,10 @@ where
             let key = deq.peek_front().and_then(|node| {
                 // TODO: Skip the entry if it is dirty. See `evict_lru_entries` method as an example.
                 if is_expired_entry_ao(tti, va, node, now) {
-                    Some(Arc::clone(node.element.key()))
+                    Some((
+                        Arc::clone(node.element.key()),
+                        node.element.entry_info() as *const EntryInfo<K>,
+                    ))
                 } else {
                     None
                 }
@@ -1261,7 +1264,10 @@ where
                 break;
             }
 
-            let key = key.as_ref().unwrap();
+            // `info` identifies the incarnation of the entry the node belongs to. The
+            // map may hold another incarnation of the key by now.
+            let (key, info) = key.as_ref().unwrap();
+            let info = *info;
 
             // Remove the key from the map only when the entry is really
             // expired. This check is needed because it is possible that the entry in
@@ -1272,9 +1278,9 @@ where
                 crate::verif::sp("sync.evict_expired_ao");
                 crate::verif::map_probe(&|| self.cache.try_get_mut(key).is_locked());
             }
-            let maybe_entry = self
-                .cache
-                .remove_if(key, |_, v| is_expired_entry_ao(tti, va, v, now));
+            let maybe_entry = self.cache.remove_if(key, |_, v| {
+                std::ptr::eq(&**v.entry_info(), info) && is_expired_entry_ao(tti, va, v, now)
+            });
 
             // Cause probe: an expired node cannot be released because its map entry
             // is already gone and the op that removes it is still queued.
@@ -1284,7 +1290,7 @@ where
             }
             if let Some((_k, entry)) = maybe_entry {
                 Self::handle_remove_with_deques(deq_name, deq, write_order_deq, entry, counters);
-            } else if !self.try_skip_updated_entry(key, deq_name, deq, write_order_deq) {
+            } else if !self.try_skip_updated_entry(key, info, deq_name, deq, write_order_deq) {
                 break;
             }
         }
@@ -1294,11 +1300,16 @@ where
     fn try_skip_updated_entry(
         &self,
         key: &K,
+        info: *const EntryInfo<K>,
         deq_name: &str,
         deq: &mut Deque<KeyHashDate<K>>,
         write_order_deq: &mut Deque<KeyDate<K>>,
     ) -> bool {
-        if let Some(entry) = self.cache.get(key) {
+        if let Some(entry) = self
+            .cache
+            .get(key)
+            .filter(|e| std::ptr::eq(&**e.entry_info(), info))
+        {
             if entry.is_dirty() {
                 // The key exists and the entry has been updated.
                 #[cfg(mini_moka_verif)]
@@ -1311,7 +1322,8 @@ where
                 false
             }
         } else {
-            // Skip this entry as the key might have been invalidated. Since the
+            // Skip this entry as the key might have been invalidated (and possibly
+            // inserted again as another incarnation). Since the
             // invalidated ValueEntry (which should be still in the write op
             // queue) has a pointer to this node, move the node to the back of
             // the deque instead of popping (dropping) it.
@@ -1336,7 +1348,10 @@ where
             let key = deqs.write_order.peek_front().and_then(|node| {
                 // TODO: Skip the entry if it is dirty. See `evict_lru_entries` method as an example.
                 if is_expired_entry_wo(ttl, va, node, now) {
-                    Some(Arc::clone(node.element.key()))
+                    Some((
+                        Arc::clone(node.element.key()),
+                        node.element.entry_info() as *const EntryInfo<K>,
+                    ))
                 } else {
                     None
                 }
@@ -1346,20 +1361,26 @@ where
                 break;
             }
 
-            let key = key.as_ref().unwrap();
+            // `info` identifies the incarnation of the entry the node belongs to.
+            let (key, info) = key.as_ref().unwrap();
+            let info = *info;
 
             #[cfg(mini_moka_verif)]
             {
                 crate::verif::sp("sync.evict_expired_wo");
                 crate::verif::map_probe(&|| self.cache.try_get_mut(key).is_locked());
             }
-            let maybe_entry = self
-                .cache
-                .remove_if(key, |_, v| is_expired_entry_wo(ttl, va, v, now));
+            let maybe_entry = self.cache.remove_if(key, |_, v| {
+                std::ptr::eq(&**v.entry_info(), info) && is_expired_entry_wo(ttl, va, v, now)
+            });
 
             if let Some((_k, entry)) = maybe_entry {
                 Self::handle_remove(deqs, entry, counters);
-            } else if let Some(entry) = self.cache.get(key) {
+            } else if let Some(entry) = self
+                .cache
+                .get(key)
+                .filter(|e| std::ptr::eq(&**e.entry_info(), info))
+            {
                 if entry.is_dirty() {
                     deqs.move_to_back_ao(&entry);
                     deqs.move_to_back_wo(&entry);
@@ -1398,19 +1419,22 @@ where
             let maybe_key_and_ts = deq.peek_front().map(|node| {
                 let entry_info = node.element.entry_info();
                 (
-                    Arc::clone(node.element.key()),
+                    (
+                        Arc::clone(node.element.key()),
+                        entry_info as *const EntryInfo<K>,
+                    ),
                     entry_info.is_dirty(),
                     entry_info.last_modified(),
                 )
             });
 
-            let (key, ts) = match maybe_key_and_ts {
+            let ((key, info), ts) = match maybe_key_and_ts {
                 Some((key, false, Some(ts))) => (key, ts),
                 // TODO: Remove the second pattern `Some((_key, false, None))` once we change
                 // `last_modified` and `last_accessed` in `EntryInfo` from `Option<Instant>` to
                 // `Instant`.
-                Some((key, true, _)) | Some((key, false, None)) => {
-                    if self.try_skip_updated_entry(&key, DEQ_NAME, deq, write_order_deq) {
+                Some(((key, info), true, _)) | Some(((key, info), false, None)) => {
+                    if self.try_skip_updated_entry(&key, info, DEQ_NAME, deq, write_order_deq) {
                         continue;
                     } else {
                         break;
@@ -1425,7 +1449,10 @@ where
                 crate::verif::map_probe(&|| self.cache.try_get_mut(&key).is_locked());
             }
             let maybe_entry = self.cache.remove_if(&key, |_, v| {
-                if let Some(lm) = v.last_modified() {
+                if !std::ptr::eq(&**v.entry_info(), info) {
+                    // Another incarnation of the key.
+                    false
+                } else if let Some(lm) = v.last_modified() {
                     lm == ts
                 } else {
                     false
@@ -1436,7 +1463,7 @@ where
                 let weight = entry.entry_info().accounted_weight();
                 Self::handle_remove_with_deques(DEQ_NAME, deq, write_order_deq, entry, counters);
                 evicted = evicted.saturating_add(weight as u64);
-            } else if !self.try_skip_updated_entry(&key, DEQ_NAME, deq, write_order_deq) {
+            } else if !self.try_skip_updated_entry(&key, info, DEQ_NAME, deq, write_order_deq) {
                 break;
             }
         }
